@@ -96,7 +96,7 @@ package layer4
 //@ func (m ConnMatcher) Match(cx *Connection) (matched bool, err error)
 //@ requires wfcx(cx) && wf(cx) && cx.matching && cx.offset == cx.frozenOffset
 //@ assigns cx.offset, cx.matching, cx.frozenOffset
-//@ modifies map:string:iface.has, map:string:iface.len, map:string:iface.val.tag, map:string:iface.val.data
+//@ modifies map:string:iface:any.has, map:string:iface:any.len, map:string:iface:any.val.tag, map:string:iface:any.val.data
 //@ ensures wfcx(cx) && ok(cx) && cx.frozenOffset == old(cx.frozenOffset)
 //@ ensures cx.matching ==> cx.frozenOffset <= cx.offset
 //@ ensures !cx.matching ==> cx.offset == cx.frozenOffset
@@ -106,7 +106,7 @@ package layer4
 //@ requires forall i int :: 0 <= i && i < len(mset) ==> mset[i] != nil
 //@ safety C04
 //@ assigns[C06] cx.offset, cx.matching, cx.frozenOffset
-//@ modifies map:string:iface.has, map:string:iface.len, map:string:iface.val.tag, map:string:iface.val.data
+//@ modifies map:string:iface:any.has, map:string:iface:any.len, map:string:iface:any.val.tag, map:string:iface:any.val.data
 //@ invariant wfcx(cx) && wf(cx) && (cx.matching ==> cx.offset == cx.frozenOffset)
 //@ invariant vpos(cx) == old(vpos(cx))
 //@ invariant rangeindex >= 0 ==> !cx.matching
@@ -131,7 +131,7 @@ package layer4
 //@ requires wfcx(cx) && wf(cx) && (cx.matching ==> cx.offset == cx.frozenOffset)
 //@ safety C04
 //@ assigns[C06] cx.offset, cx.matching, cx.frozenOffset
-//@ modifies map:string:iface.has, map:string:iface.len, map:string:iface.val.tag, map:string:iface.val.data
+//@ modifies map:string:iface:any.has, map:string:iface:any.len, map:string:iface:any.val.tag, map:string:iface:any.val.data
 //@ invariant wfcx(cx) && wf(cx) && (cx.matching ==> cx.offset == cx.frozenOffset)
 //@ invariant vpos(cx) == old(vpos(cx))
 //@ invariant rangeindex < 0 ==> cx.matching == old(cx.matching)
